@@ -307,6 +307,15 @@ pub fn targeted() -> Vec<String> {
         // zero / huge / tiny amounts meet the servings base: 0 x inf, inf x 0 and overflow to inf inside scaling and fitting
         v.push(format!("---\nservings: {t}\nserves: {t}\nyield: {t}\n---\n@a{{100%g}} @b{{0%g}} @c{{0}} @d{{0-1%cup}} @e{{0.0000000001%tsp}} #p{{0}} ~{{0%min}} 0 kg"));
     }
+    // servings that start with characters that are numeric but not ASCII digits (vulgar fractions, fullwidth, superscript,
+    // Arabic-Indic, Roman numeral, circled) — alone, in `|` lists, in YAML lists, under every synonym
+    for t in ["1½ cups", "2½ | 5", "４", "４ people", "²", "2² | 3", "٣", "٣ | ٤", "Ⅳ", "①|②", "½", "1¼|2¾ big", "12½%", "１２|２４"] {
+        for k in ["servings", "serves", "yield"] {
+            v.push(format!(">> {k}: {t}\n@a{{1}}"));
+            v.push(format!("---\n{k}: {t}\n---\nMix @flour{{200%g}}.\n"));
+            v.push(format!("---\n{k}: [\"{t}\", 3]\n---\n@a{{1}}"));
+        }
+    }
     // empty servings list; more than 7 labels in one diagnostic (one label per `>>` entry)
     v.push("---\nservings: []\n---\nMix @flour{200%g} and @water{1%l}.\n".to_string());
     v.push(">> servings: \n@a{1}".to_string());
